@@ -278,6 +278,12 @@ func (ce *cenv) evalQuant(e *CExpr) cvar {
 	var bound []*Term
 	var ranges []*Term
 	for _, d := range e.Vars {
+		if d.Type == "string" {
+			b := mkBound(d.Name, sortStr)
+			bound = append(bound, b)
+			vars[d.Name] = cvar{v: b, t: types.Typ[types.String]}
+			continue
+		}
 		b := mkBound(d.Name, sortInt)
 		switch d.Type {
 		case "int":
@@ -914,6 +920,12 @@ func (ce *cenv) evalCall(e *CExpr) cvar {
 		argn(2)
 		v := ce.eval(e.Args[1])
 		return cvar{v: mkSelect(ce.st.H("ghost:"+e.Name+":"+e.Args[0].String(), arraySort(sortInt, sortInt)), x.toTerm(v.v, v.t)), t: mathInt}
+	case "bytesobj":
+		// bytesobj(o): contents of the byte array object with reference o
+		argn(1)
+		bt := types.Universe.Lookup("byte").Type()
+		hn, so := x.env.te.elemHeap(bt)
+		return cvar{v: mkSelect(ce.st.H(hn, so), ce.evalInt(e.Args[0])), t: nil}
 	case "contents":
 		// contents(s): the whole backing array of slice s (for uninterpreted functions of bytes)
 		argn(1)
@@ -974,6 +986,18 @@ func (ce *cenv) evalCall(e *CExpr) cvar {
 			}
 		}
 		return cvar{v: mkApp("uf:"+e.Args[0].Name, sortInt, as...), t: mathInt}
+	case "ufs":
+		// ufs(name, args...): uninterpreted string-valued function
+		var as []*Term
+		for _, a := range e.Args[1:] {
+			v := ce.eval(a)
+			if tm, ok := v.v.(*Term); ok {
+				as = append(as, tm)
+			} else {
+				as = append(as, x.toTerm(v.v, v.t))
+			}
+		}
+		return cvar{v: mkApp("ufs:"+e.Args[0].Name, sortStr, as...), t: types.Typ[types.String]}
 	case "ufb":
 		var as []*Term
 		for _, a := range e.Args[1:] {
